@@ -6,7 +6,6 @@ import (
 
 	"github.com/tidwall/btree"
 	"github.com/tidwall/geojson"
-	"github.com/tidwall/geojson/geo"
 	"github.com/tidwall/geojson/geometry"
 	"github.com/tidwall/rtree"
 	"github.com/tidwall/tile38/internal/deadline"
@@ -434,15 +433,31 @@ func (c *Collection) geoSearch(
 // wrong when the disc crosses the antimeridian or a pole.
 func searchRect(obj geojson.Object) geometry.Rect {
 	rect := obj.Rect()
-	if circle, ok := obj.(*geojson.Circle); ok {
-		center := circle.Center()
-		minLat, minLon, maxLat, maxLon :=
-			geo.RectFromCenter(center.Y, center.X, circle.Meters())
-		rect.Min.X = math.Min(rect.Min.X, minLon)
-		rect.Min.Y = math.Min(rect.Min.Y, minLat)
-		rect.Max.X = math.Max(rect.Max.X, maxLon)
-		rect.Max.Y = math.Max(rect.Max.Y, maxLat)
+	circle, ok := obj.(*geojson.Circle)
+	if !ok {
+		return rect
 	}
+	const earthRadius = 6371e3 // same sphere as geo.Haversine
+	center := circle.Center()
+	// angular radius, padded so that rounding never shrinks the rectangle
+	r := circle.Meters()/earthRadius*(1+1e-9) + 1e-15
+	lat := center.Y * math.Pi / 180
+	minLat := (lat - r) * 180 / math.Pi
+	maxLat := (lat + r) * 180 / math.Pi
+	minLon, maxLon := -180.0, 180.0
+	if math.Abs(lat)+r < math.Pi/2 {
+		// half-width in longitude of a disc that does not reach a pole
+		dlon := math.Asin(math.Min(1, math.Sin(r)/math.Cos(lat)))
+		dlon = (dlon*(1+1e-9) + 1e-15) * 180 / math.Pi
+		if center.X-dlon >= -180 && center.X+dlon <= 180 {
+			minLon, maxLon = center.X-dlon, center.X+dlon
+		}
+		// otherwise the disc crosses the antimeridian: search the whole belt
+	}
+	rect.Min.X = math.Min(rect.Min.X, minLon)
+	rect.Min.Y = math.Min(rect.Min.Y, math.Max(minLat, -90))
+	rect.Max.X = math.Max(rect.Max.X, maxLon)
+	rect.Max.Y = math.Max(rect.Max.Y, math.Min(maxLat, 90))
 	return rect
 }
 
